@@ -27,10 +27,13 @@ def _jobs_store_family(oracles, family_untimed, family_timed, tier, stores_untim
     jobs = []
     q = tier == "quick"
     for s in stores_untimed:
-        jobs.append(m1(s, family_untimed, 3 if q else 4, 2 if q else 3, oracles, 12 if q else 120))
+        n = (2 if s == "RPRFS" else 3) if q else (3 if s == "RPRFS" else 4)
+        jobs.append(m1(s, family_untimed, n, 2 if q else 3, oracles, 12 if q else 120))
     for s in stores_timed:
         if q:
             jobs.append(m1(s, family_timed, 2, 1, oracles, 12, R2=1, USE=False))
+            if s.startswith("BUF"):
+                jobs.append(m1(s, family_timed, 3, 1, oracles, 12, R2=1, USE=False, TR=False))
         else:
             jobs.append(m1(s, family_timed, 2, 2, oracles, 150, R2=1, USE=True))
             jobs.append(m1(s, family_timed, 3, 1, oracles, 150, R2=1, USE=True, TR=False))
@@ -58,6 +61,8 @@ PROPS["C01"] = {
                    "variables. After every call and kernel event the ledger occupancy (puts minus gets) plus granted-unused space reservations "
                    "must be <= capacity, and a put with a granted reservation must not raise.",
     "jobs": lambda tier: _jobs_store_family(("C01",), "space", "space", tier) + [
+        m1(s, "both", 2, 1 if tier == "quick" else 2, ("C01",), 10 if tier == "quick" else 120, R2=0, USE=False, S=2)
+        for s in ("RPRS", "RRS", "RPRFS", "BUF_FIFO", "FLEET")] + [
         m1("BUFE_FIFO", "space", 2, 1 if tier == "quick" else 2, ("C01",), 10 if tier == "quick" else 90),
         m1("FLEETE", "space", 2, 1 if tier == "quick" else 2, ("C01",), 10 if tier == "quick" else 90)],
     "required_witnesses": ["C01:checked", "step:use", "cancel-granted-put"],
@@ -84,7 +89,9 @@ PROPS["C04"] = {
     "explanation": "Same engine; at every quiescent point (after every call for time-less stores, after every simulated instant has been drained for timed "
                    "stores) no space request is pending while ledger occupancy + granted-unused space reservations < capacity, and no retrieval request is "
                    "pending while an available, unbound item exists (availability from the harness's own put time + delay).",
-    "jobs": lambda tier: _jobs_store_family(("C04",), "both", "both", tier),
+    "jobs": lambda tier: _jobs_store_family(("C04",), "both", "both", tier) + [
+        m1(s, "arrivals", 2 if tier == "quick" else 3, 1 if tier == "quick" else 2, ("C04",), 10 if tier == "quick" else 120)
+        for s in ("RPRS", "RPRFS", "BUF_FIFO", "BUF_LIFO", "RPRFS_TD", "FLEET")],
     "required_witnesses": ["C04:pending-put-checked", "C04:pending-get-checked"],
     "nontrivial_witnesses": ["complete"],
     "twin": twin_m1("BUF_FIFO", "both"),
@@ -169,9 +176,10 @@ def _jobs_c11(tier):
     jobs = []
     for s in ["BUFE_FIFO", "BUFE_LIFO", "BUFE_FIFO_GEN", "BUFE_FIFO_CONST", "FLEETE"]:
         if q:
-            jobs.append(spec_job(f"M1/C11/{s}", "vfy.m1", "scenario_c11", 14, store=s, N=2, K=1, R2=0, RMAX=2, S=1))
+            jobs.append(spec_job(f"M1/C11/{s}", "vfy.m1", "scenario_c11", 14, store=s, N=2, K=1, R2=0, RMAX=2, S=1, TRN=1))
+            jobs.append(spec_job(f"M1/C11/{s}/transit2", "vfy.m1", "scenario_c11", 10, store=s, N=1, K=1, R2=0, RMAX=1, S=0, TRN=2))
         else:
-            jobs.append(spec_job(f"M1/C11/{s}", "vfy.m1", "scenario_c11", 200, store=s, N=2, K=2, R2=1, RMAX=3, S=2))
+            jobs.append(spec_job(f"M1/C11/{s}", "vfy.m1", "scenario_c11", 200, store=s, N=2, K=2, R2=1, RMAX=3, S=2, TRN=2))
     return jobs
 
 
@@ -225,6 +233,7 @@ def fan_cfgs(tier):
     C["line-indelay"] = dict(n_src=1, n_out=1, n_items=3, w=1, in_delay="sym")
     C["line-gen"] = dict(n_src=1, n_out=1, n_items=3, w=1, per_item_pd=True, delay_kind="generator")
     C["line-const"] = dict(n_src=1, n_out=1, n_items=3, w=2, delay_kind="const")
+    C["line-lifo"] = dict(n_src=1, n_out=1, n_items=4, w=1, in_cap=3, sym=("pd",), conv_kw=dict(mode="LIFO"))
     C["fanin-fa"] = dict(n_src=2, n_out=1, n_items=2, w=1)
     C["fanin-fa-w2-tie"] = dict(n_src=2, n_out=1, n_items=2, w=2, same_iat=True, per_item_pd=True)
     C["fanout-fa"] = dict(n_src=1, n_out=2, n_items=n3, w=1, out_cap=1)
@@ -236,6 +245,7 @@ def fan_cfgs(tier):
     C["nb-source-fa"] = dict(n_src=1, n_out=1, n_items=4, w=1, in_cap=1, src_blocking=False, src_out_sel="FIRST_AVAILABLE")
     C["rr-in"] = dict(n_src=2, n_out=1, n_items=2, w=1, in_sel="ROUND_ROBIN")
     C["rr-out"] = dict(n_src=1, n_out=2, n_items=n3, w=1, out_sel="ROUND_ROBIN", out_cap=1)
+    C["rr-both"] = dict(n_src=2, n_out=3, n_items=3, w=1, in_sel="ROUND_ROBIN", out_sel="ROUND_ROBIN", sym=("pd",))
     C["idx-out"] = dict(n_src=1, n_out=2, n_items=3, w=1, out_sel=1, out_cap=1)
     C["callable-in"] = dict(n_src=2, n_out=1, n_items=2, w=1, in_sel="callable", sym=("pd",))
     C["generator-out"] = dict(n_src=1, n_out=2, n_items=3, w=1, out_sel="generator", out_cap=1, sym=("pd",))
@@ -316,7 +326,7 @@ PROPS["C10"] = {
 PROPS["C15"] = {
     "explanation": M2_EXPL + "the edge on which every item is pulled/pushed is compared with the policy's answers (ROUND_ROBIN k mod n, constant index, user callable / generator whose answers "
                    "the solver chooses), FIRST_AVAILABLE must not cancel a granted request on a lower-index edge in the round in which it commits, and the recorded selection history must equal the routing.",
-    "jobs": lambda tier: fan_jobs("C15", tier, names=["fanin-fa", "fanin-fa-w2-tie", "fanout-fa", "fanout-w2-tie", "nb-machine-fa", "nb-machine-rr", "rr-in", "rr-out", "idx-out", "callable-in", "generator-out", "fanout3-w3"]) + [
+    "jobs": lambda tier: fan_jobs("C15", tier, names=["fanin-fa", "fanin-fa-w2-tie", "fanout-fa", "fanout-w2-tie", "nb-machine-fa", "nb-machine-rr", "rr-in", "rr-out", "rr-both", "idx-out", "callable-in", "generator-out", "fanout3-w3"]) + [
         {"name": "M0/selectors", "spec": ("vfy.m0", "selector_scenario", dict(nmax=4 if tier == "quick" else 6)), "budget_s": 20 if tier == "quick" else 120, "bounds": "RoundRobin_edge_selector and _get_*_edge_index of all node classes with out-of-range answers"}],
     "required_witnesses": ["C15:routing-checked", "C15:history-checked", "C15:range-checked"],
     "nontrivial_witnesses": ["complete"],
@@ -395,6 +405,9 @@ def conveyor_cfgs(tier):
             C[f"{kind}-acc{acc}-late"] = dict(kind=kind, acc=acc, cap=3, n_items=3, consumer="late")
     C["sconv-acc1-cap2-hold"] = dict(kind="sconv", acc=1, cap=2, n_items=3, consumer="hold")
     C["cconv-acc1-cap2-hold"] = dict(kind="cconv", acc=1, cap=2, n_items=3, consumer="hold")
+    C["sconv-acc1-2producers"] = dict(kind="sconv", acc=1, cap=3, n_items=4, consumer="late", n_prod=2)
+    C["cconv-acc1-2producers"] = dict(kind="cconv", acc=1, cap=3, n_items=4, consumer="late", n_prod=2)
+    C["cconv-acc0-cap3-hold"] = dict(kind="cconv", acc=0, cap=3, n_items=3, consumer="hold")
     C["cconv-acc1-cap2-slow"] = dict(kind="cconv", acc=1, cap=2, n_items=3, consumer="slow")
     C["cconv-acc1-speed2"] = dict(kind="cconv", acc=1, cap=2, n_items=3, consumer="late", speed=2, item_len=1, length=2)
     C["cconv-acc0-halfitems"] = dict(kind="cconv", acc=0, cap=4, n_items=3, consumer="late", speed=1, item_len=0.5, length=2)
@@ -439,7 +452,7 @@ PROPS["C13"] = {
     "explanation": CONV_EXPL + "oracles: a stall is an interval in which the head item is at the exit and not taken. Non-accumulating: no entry strictly inside a stall, and R_i = E_i + travel + "
                    "(stall time inside [E_i, R_i]) (nothing advances while stopped, everything resumes from where it stopped). Accumulating: R_i = max(E_i + travel, G_{i-1} + item length / speed) "
                    "(advance until touching the item ahead, one item length after it leaves), every item is eventually admitted, order preserved.",
-    "jobs": lambda tier: conveyor_jobs("C13", tier, only=lambda n: "eager" not in n and "hold" not in n),
+    "jobs": lambda tier: conveyor_jobs("C13", tier, only=lambda n: "eager" not in n and ("hold" not in n or "acc0" in n)),
     "required_witnesses": ["C13:stall-seen", "C13:ready-time-checked"],
     "nontrivial_witnesses": ["complete"],
     "twin": lambda tier: ("vfy.m2x", "conveyor", dict(props=("C13",), kind="cconv", n_items=1, consumer="late", twin=True)),
@@ -456,9 +469,13 @@ def pk_cfgs(tier):
     C["r111"] = dict(recipe=(1, 1, 1), n_pallets=2, sym=("ii", "pd"))
     C["r12-cap1"] = dict(recipe=(1, 2), n_pallets=2, item_cap=1, sym=("ii", "pd"))
     C["r11-rr2"] = dict(recipe=(1, 1), n_pallets=2, split_out=2, split_sel="ROUND_ROBIN", sym=("ii", "pd"))
+    C["r11-rr2-blocked"] = dict(recipe=(1, 1), n_pallets=2, split_out=2, split_sel="ROUND_ROBIN", sym=("ii", "pd", "sd"), out_delay="sym")
     C["r12-fa2"] = dict(recipe=(1, 2), n_pallets=2, split_out=2, sym=("ii", "pd"), out_delay="sym")
     C["r12-nonblocking"] = dict(recipe=(1, 2), n_pallets=2, blocking=False, out_delay="sym", sym=("ii", "pd"))
     C["r11-idx"] = dict(recipe=(1, 1), n_pallets=2, split_out=2, split_sel=1, sym=("ip", "pd"))
+    C["r11-lifo-mid"] = dict(recipe=(1, 1), n_pallets=3, mid_cap=3, mid_mode="LIFO", sym=("sd",), split_sd_hi=6)
+    C["r11-split-in-idx"] = dict(recipe=(1, 1), n_pallets=3, split_in_sel=0, sym=("ip", "sd"), split_sd_hi=5, mid_cap=2)
+    C["r13-nonblocking-split"] = dict(recipe=(1, 3), n_pallets=2, blocking=True, split_blocking=False, out_delay="sym", sym=("ii", "sd"), item_cap=3)
     C["r12-comb-only"] = dict(recipe=(1, 2), n_pallets=2, comb_only=True, out_delay="sym")
     if not q:
         C["r122"] = dict(recipe=(1, 2, 2), n_pallets=2, sym=("ii", "pd"))
@@ -493,14 +510,18 @@ PROPS["C16"] = {
     "outside": "recipe entries 0 (the combiner crashes on them: not a documented use), more than 3 in-edges",
 }
 
-# the pallet scenarios also serve C03 / C08 / C17
+# the pallet scenarios also serve C03 / C08 / C09 / C17 / C18
+_c09_jobs = PROPS["C09"]["jobs"]
+PROPS["C09"]["jobs"] = lambda tier: _c09_jobs(tier) + pk_jobs("C09", tier, names=["r12-nonblocking", "r13-nonblocking-split", "r11"])
+_c18_jobs = PROPS["C18"]["jobs"]
+PROPS["C18"]["jobs"] = lambda tier: _c18_jobs(tier) + pk_jobs("C18", tier, names=["r11", "r12", "r12-comb-only"], extra_kw={"until": "sym"})
 _c03_jobs = PROPS["C03"]["jobs"]
-PROPS["C03"]["jobs"] = lambda tier: _c03_jobs(tier) + pk_jobs("C03", tier, names=["r11", "r12", "r11-rr2", "r12-nonblocking", "r12-comb-only"])
+PROPS["C03"]["jobs"] = lambda tier: _c03_jobs(tier) + pk_jobs("C03", tier, names=["r11", "r12", "r11-rr2", "r12-nonblocking", "r12-comb-only", "r11-lifo-mid"])
 _c08_jobs = PROPS["C08"]["jobs"]
-PROPS["C08"]["jobs"] = lambda tier: _c08_jobs(tier) + pk_jobs("C08", tier, names=["r11", "r12", "r111", "r11-rr2"])
+PROPS["C08"]["jobs"] = lambda tier: _c08_jobs(tier) + pk_jobs("C08", tier, names=["r11", "r12", "r111", "r11-rr2", "r11-split-in-idx"])
 PROPS["C08"]["required_witnesses"] = PROPS["C08"]["required_witnesses"] + ["C08:combiner-residence-checked"]
 _c17_jobs = PROPS["C17"]["jobs"]
-PROPS["C17"]["jobs"] = lambda tier: _c17_jobs(tier) + pk_jobs("C17", tier, names=["r11", "r12", "r11-rr2", "r12-fa2"], extra_kw={"until": "sym"}) + pk_jobs(
+PROPS["C17"]["jobs"] = lambda tier: _c17_jobs(tier) + pk_jobs("C17", tier, names=["r11", "r12", "r11-rr2", "r11-rr2-blocked", "r12-fa2"], extra_kw={"until": "sym"}) + pk_jobs(
     "C17", tier, names=["r11"], extra_kw={"until": "sym", "setup": 1})
 PROPS["C17"]["required_witnesses"] = PROPS["C17"]["required_witnesses"] + ["C17:finalised@Splitter", "C17:finalised@Combiner"]
 
